@@ -128,6 +128,7 @@ package vegeta
 //@ spec func bn(value []byte) int = split_n(bspec(value), ",")
 
 //@ func (*Buckets).UnmarshalText
+//@   deadexit return fmt.Errorf("bad buckets: %s", value) (occurrence 2)
 //@   property C12 C16
 //@   returns (err)
 //@   requires [non-nil] bs != nil
